@@ -72,6 +72,50 @@ def has_guard(ctx, f, pred, label, detail, expected, top_level=True, nested=Fals
     return good
 
 
+def no_method_scenarios(ctx):
+    """DirectMethod.transcribe (the method of a stage that declared none) is run on small stages: whatever needs a discretisation -
+    a state, a control, an algebraic or a quadrature state, a path constraint on any non-point grid - must raise, in every phase and
+    before anything is transcribed; a stage with none of them must pass phases 0 and 2 silently.  Decided on the simulated runs, so
+    an or-chain, any(...), a loop with raise or next(...) are all the same."""
+    from ..sim import Sim, fresh_obj
+    from ..layout import Sym, LayoutUnknown
+    P = ctx.prog
+    f = P.own_method("DirectMethod", "transcribe")
+    grids = ["control", "integrator", "integrator_roots", "inf"]
+
+    def run(phase, sizes, filled):
+        stage = fresh_obj("stage", nx=0, nu=0, nz=0, nxq=0, _constraints={g: ([(Sym("c"), Sym("m"), {})] if g == filled else []) for g in grids + ["point"]},
+                          _objective=Sym("obj"), _initial={}, parameters={"": []})
+        stage.attrs.update(sizes)
+        done = []
+        hooks = {n_: (lambda s_, r, a, k, n, n_=n_: done.append(n_)) for n_ in (".add_variables", ".add_parameters", ".set_initial", ".set_parameter", ".subject_to", ".add_objective")}
+        hooks[".eval_top"] = lambda s_, r, a, k, n: Sym("top")
+        sim = Sim(P, hooks=hooks)
+        sim.cfg["nu"] = stage.attrs["nu"] > 0      # the interpreter's policy table answers `stage.nu > 0` / `stage.nz` from its configuration
+        sim.cfg["nz"] = stage.attrs["nz"] > 0
+        try:
+            sim.call(f, [fresh_obj("self", opti=fresh_obj("opti")), stage], {f.params[2]: phase})
+        except LayoutUnknown as e:
+            if str(e).startswith("raise reached"):
+                return "raises" + (" after transcribing (%s)" % ", ".join(done) if done else "")
+            raise AnalysisError("DirectMethod.transcribe could not be simulated: %s" % e)
+        return "passes"
+    labels = {"nx": ("stage with dynamics but no method raises", "no method declared"), "nu": ("stage with dynamics but no method raises", "no method declared"),
+              "nz": ("a stage with algebraic or quadrature states but no method raises", "stage without a method whose DAE / quadrature is silently ignored"),
+              "nxq": ("a stage with algebraic or quadrature states but no method raises", "stage without a method whose DAE / quadrature is silently ignored")}
+    for size, (label, detail) in labels.items():
+        got = {ph: run(ph, {size: 2}, None) for ph in (0, 1, 2)}
+        ctx.check(all(v == "raises" for v in got.values()), "DirectMethod.transcribe: %s (%s > 0)" % (label, size), detail=detail, expected="an exception in every phase, before anything is transcribed",
+                  found=str(got), fi=f)
+    for g in grids:
+        got = {ph: run(ph, {}, g) for ph in (0, 1, 2)}
+        ctx.check(all(v == "raises" for v in got.values()), "DirectMethod.transcribe: path constraints on a stage without a method raise (grid %s)" % g,
+                  detail="path constraints (grid control / integrator / inf) of a stage without a method are silently ignored", expected="an exception in every phase", found=str(got), fi=f)
+    got = {ph: run(ph, {}, None) for ph in (0, 2)}
+    ctx.check(all(v == "passes" for v in got.values()), "DirectMethod.transcribe: a stage of variables, parameters and point constraints only is accepted", detail="a legal method-less stage is rejected",
+              expected="no exception in phases 0 and 2", found=str(got), fi=f)
+
+
 @rule("R20.1", min_instances=30, desc="guard catalogue: every fault of the statement has a raising guard at the site that would otherwise transcribe it")
 def r20_1(ctx):
     P = ctx.prog
@@ -93,15 +137,8 @@ def r20_1(ctx):
     f = P.own_method("Stage", "_param_value")
     has_guard(ctx, f, lambda t, k: ("notinself._param_vals" in t and k == "raise") or ("inself._param_vals" in t and "notin" not in t and k == "else-raise"),
               "Stage._param_value: parameter without value raises", "parameter without value", "if p not in self._param_vals: raise")
-    # 4. no method
-    f = P.own_method("DirectMethod", "transcribe")
-    g = has_guard(ctx, f, lambda t, k: "stage.nx>0" in t and "stage.nu>0" in t and k == "raise", "DirectMethod.transcribe: stage with dynamics but no method raises", "no method declared",
-                  "if stage.nx>0 or stage.nu>0: raise, before any phase test")
-    if g:
-        sc = ctx.scope(f)
-        rets = [r for r in walk_no_nested(f.node) if isinstance(r, ast.Return)]
-        ctx.check(all(sc.order[g[0]] < sc.order[r] for r in rets), "DirectMethod.transcribe: the no-method guard precedes every early return", detail="guard skipped in some phase",
-                  expected="guard first", found="", fi=f)
+    # 4. / 9e. a stage without a method: simulated DirectMethod.transcribe on stages that need a discretisation (see below)
+    no_method_scenarios(ctx)
     # 5. no solver
     f = P.own_method("DirectMethod", "main_transcribe")
     has_guard(ctx, f, lambda t, k: "self._solverisNone" in t and k == "raise", "DirectMethod.main_transcribe: no solver raises", "no solver declared", "if self._solver is None: raise (phase 1)", top_level=False)
@@ -177,13 +214,6 @@ def r20_1(ctx):
     f = P.own_method("Stage", "_diffeq")
     has_guard(ctx, f, lambda t, k: ("self.nz" in t or "self._alg" in t) and k in ("raise", "assert"), "Stage._diffeq: algebraic variables / equations with a discrete-time model are rejected",
               "set_next model with algebraic variables: the algebraic equation, and every constraint or objective term on z, silently vanish", "if self.nz>0 or self._alg: raise")
-    # 9e. a stage without a method: anything that needs a discretisation must be rejected, not only states and controls
-    f = P.own_method("DirectMethod", "transcribe")
-    has_guard(ctx, f, lambda t, k: "stage.nx>0" in t and "stage.nu>0" in t and "stage.nz>0" in t and "stage.nxq>0" in t and k == "raise",
-              "DirectMethod.transcribe: a stage with algebraic or quadrature states but no method raises", "stage without a method whose DAE / quadrature is silently ignored",
-              "if stage.nx>0 or stage.nu>0 or stage.nz>0 or stage.nxq>0 ...: raise")
-    has_guard(ctx, f, lambda t, k: "_constraints" in t and k == "raise", "DirectMethod.transcribe: path constraints on a stage without a method raise",
-              "path constraints (grid control / integrator / inf) of a stage without a method are silently ignored", "if any(stage._constraints[g] for g in <non-point grids>): raise", top_level=False)
     # 10. foreign symbols
     f = P.own_method("Stage", "_ode")
     has_guard(ctx, f, lambda t, k: t == "notret.has_free()" and k == "assert", "Stage._ode: symbols that do not belong to the stage are rejected", "foreign symbol in the dynamics", "assert not ret.has_free()")
